@@ -225,6 +225,15 @@ class FloatLiteral(Literal[float]):
 
     __slots__ = ()
 
+    def __str__(self) -> str:
+        # `repr(1e16)` is "1e+16", which would be read back as an integer
+        # literal. Keep a fraction part so it stays a float literal.
+        s = repr(self.value)
+        if "e" in s and "." not in s:
+            mantissa, exponent = s.split("e")
+            return f"{mantissa}.0e{exponent}"
+        return s
+
 
 class RegexLiteral(Literal[Pattern[str]]):
     """A regex literal."""
